@@ -328,14 +328,11 @@ func kfArrayFor(args []KeyBuilderStage) (KeyBuilderStage, error) {
 				sb.WriteRune(ArraySeparator)
 			}
 			sb.WriteString(val)
-			if sb.Len() > MAX_OUTPUT_BYTES { // Prevent memory-crash
-				return "<INF>"
-			}
 
 			val = sub.Eval(args[2], val, sIdx)
 
 			idx++
-			if idx > MAX_ITERATIONS { // Prevent infinite loop/memory-crash
+			if idx > MAX_ITERATIONS || sb.Len() > MAX_OUTPUT_BYTES { // Prevent infinite loop/memory-crash
 				return "<INF>"
 			}
 		}
